@@ -12,31 +12,51 @@ LEVEL = "model_checking"
 RULE = (
     "get_array / make for 2-3 runs with 2 worker threads (strax.utils.ThreadPoolExecutor and wait replaced by scheduler-controlled "
     "equivalents) x target {single, two same-kind types (temporary merge plugin registered and removed per call)} x plugin cache "
-    "{cold, warm} x storage {none, DataDirectory} x {no failure, one failing run with ignore_errors on/off}; scheduling points: "
+    "{cold, warm} x storage {none, DataDirectory} x {no failure, one failing run with ignore_errors on/off}; plus 3-5 runs with "
+    "1-2 workers, i.e. more runs than the in-flight window of 2 x max_workers, x every proper subset of failing runs (the refill "
+    "bookkeeping of multi_run); one plugin has no class-level dtype (only infer_dtype), so a plugin instance published before "
+    "fix_dtype() is unusable; scheduling points: "
     "pool operations plus a `line` trace event on every line of strax/context.py that mentions _plugin_class_registry, "
-    "_fixed_plugin_cache, _fixed_level_cache or _run_defaults_cache (selected statically); every schedule with <=B preemptions is "
+    "_fixed_plugin_cache, _fixed_level_cache or _run_defaults_cache (selected statically), or - mode 'funcs' - on every line of "
+    "every function containing such a line; every schedule with <=B preemptions is "
     "executed; oracle: result == concatenation of sequential single-run results in run-id order with the run id attached, a "
     "failing run raises (or is omitted when errors are ignored), no other exception, no deadlock."
 )
 ASSUMPTIONS = [
-    "code between two selected lines runs atomically: everything else the workers touch is thread-local or read-only (confirmed once per thorough run by exploring with ALL context.py lines as scheduling points at bound 1)",
+    "mode 'lines': code between two selected lines runs atomically; mode 'funcs' drops that assumption inside every function that touches shared state (a change that re-orders a cache update and its neighbour statement is visible there); everything else the workers touch is thread-local or read-only (confirmed once per thorough run by exploring with ALL context.py lines as scheduling points at bound 1)",
     "per-run processing uses the single-thread processor inside each worker (the mailbox threads are covered by C05/C06)",
     "bytecode-level races inside one source line are not modelled",
 ]
-BOUNDS = {"quick": "2 runs (3 for one cell), 2 workers, preemption bound 1 for 4 cells (multi-target cold cache, failing run, ignored failure with warm cache, make), bound 0 for the rest", "thorough": "2-3 runs, preemption bound 2 for 2 runs; all-lines confirmation at bound 1"}
+BOUNDS = {"quick": "2 runs (3 for one cell), 2 workers, preemption bound 1 for 4 cells (multi-target cold cache, failing run, ignored failure with warm cache, make), bound 0 for the rest; window cells (3-5 runs, 1-2 workers, failing subsets) at bound 0; function-level points at bound 1 for the two cold-cache cells", "thorough": "2-3 runs, preemption bound 2 for 2 runs; all window cells; function-level points at bound 1 for 7 cells; all-lines confirmation at bound 1"}
 
 SHARED = re.compile(r"_plugin_class_registry|_fixed_plugin_cache|_fixed_level_cache|_run_defaults_cache|cached_plugins")
+WRITE = re.compile(r"(\]|cache|registry)\s*=[^=]|\bdel |\.pop\(|\.update\(|\.setdefault\(|\.clear\(")
 _LINES = {}
 
 
-def shared_lines(all_lines=False):
-    key = bool(all_lines)
+def shared_lines(mode=False):
+    """mode False / "lines": the lines that mention the shared registry / caches; "funcs": every line of every function of
+    context.py that WRITES one of them or publishes plugin instances via _plugins_to_cache (so that a preemption can also fall between a cache update and the statement that
+    used to precede it); True / "all": every line of context.py"""
+    key = {False: "lines", True: "all"}.get(mode, mode)
     if key not in _LINES:
         fn = strax.context.__file__
+        src = open(fn).read()
+        lines = src.splitlines()
         sel = set()
-        for i, l in enumerate(open(fn), 1):
-            if all_lines or SHARED.search(l):
-                sel.add(i)
+        if key == "funcs":
+            import ast
+
+            for node in ast.walk(ast.parse(src)):
+                if not isinstance(node, ast.FunctionDef) or node.name == "__init__":
+                    continue
+                body = lines[node.lineno - 1 : node.end_lineno]
+                if any(SHARED.search(l) and WRITE.search(l) for l in body) or any("_plugins_to_cache(" in l for l in body[1:]):
+                    sel.update(range(node.lineno, node.end_lineno + 1))
+        else:
+            for i, l in enumerate(lines, 1):
+                if key == "all" or SHARED.search(l):
+                    sel.add(i)
         _LINES[key] = (fn, sel)
     return _LINES[key]
 
@@ -62,6 +82,16 @@ def make_tracer(all_lines=False):
 CUR = {"fail": None}
 
 
+def fails(f):
+    """the failing runs of a cell: None, one run id, or a tuple of run ids"""
+    return () if f is None else ((f,) if isinstance(f, str) else tuple(f))
+
+
+def unpack(cfg):
+    cfg = tuple(cfg)
+    return cfg if len(cfg) == 8 else cfg + (2,)
+
+
 class Src(strax.Plugin):
     provides = "src"
     depends_on = ()
@@ -78,7 +108,7 @@ class Src(strax.Plugin):
 
     def compute(self, chunk_i):
         rid = int(self.run_id)
-        if CUR["fail"] == self.run_id and chunk_i == 1:
+        if self.run_id in fails(CUR["fail"]) and chunk_i == 1:
             raise ValueError(f"injected failure in run {self.run_id}")
         r = np.zeros(1, self.dtype)
         t = rid * 10000 + chunk_i * 1000
@@ -89,10 +119,12 @@ class Src(strax.Plugin):
 class Mp(strax.Plugin):
     provides = "mp"
     depends_on = ("src",)
-    dtype = g.dt_for("mp")
     data_kind = "kk"
     rechunk_on_save = False
     __version__ = "0"
+
+    def infer_dtype(self):  # no class-level dtype: the instance is only usable after fix_dtype()
+        return g.dt_for("mp")
 
     def compute(self, kk):
         return g.f_map("mp", "src", kk)
@@ -101,7 +133,7 @@ class Mp(strax.Plugin):
 def expected(runs, targets, fail, ignore):
     out = []
     for r in sorted(runs):
-        if r == fail:
+        if r in fails(fail):
             continue
         rid = int(r)
         s = np.zeros(2, g.dt_for("src"))
@@ -125,7 +157,7 @@ class H(explore.Harness):
         self.obs = {}
 
     def main(self):
-        runs, targets, warm, storage, fail, ignore, call = self.cfg
+        runs, targets, warm, storage, fail, ignore, call, workers = unpack(self.cfg)
         CUR["fail"] = fail
         d = ctxrun.fresh_dir("c15") if storage else None
         st = strax.Context(storage=[strax.DataDirectory(d)] if d else [], register=[Src, Mp], **g.CTX_DEFAULTS)
@@ -137,11 +169,11 @@ class H(explore.Harness):
             with warnings.catch_warnings():
                 warnings.simplefilter("ignore")
                 if call == "make":
-                    st.make(list(runs), tg if targets == "mp" else "mp", max_workers=2, processor="single_thread", progress_bar=False, multi_run_progress_bar=False, ignore_errors=ignore)
+                    st.make(list(runs), tg if targets == "mp" else "mp", max_workers=workers, processor="single_thread", progress_bar=False, multi_run_progress_bar=False, ignore_errors=ignore)
                     self.obs["res"] = None
                     self.obs["stored"] = {r: st.is_stored(r, "mp") for r in runs}
                 else:
-                    self.obs["res"] = st.get_array(list(runs), tg, max_workers=2, processor="single_thread", progress_bar=False, multi_run_progress_bar=False, ignore_errors=ignore)
+                    self.obs["res"] = st.get_array(list(runs), tg, max_workers=workers, processor="single_thread", progress_bar=False, multi_run_progress_bar=False, ignore_errors=ignore)
         except vsched.Abort:
             raise
         except BaseException as e:  # noqa
@@ -149,7 +181,7 @@ class H(explore.Harness):
         self.obs["registry"] = sorted(st._plugin_class_registry)
 
     def final(self, s):
-        runs, targets, warm, storage, fail, ignore, call = self.cfg
+        runs, targets, warm, storage, fail, ignore, call, workers = unpack(self.cfg)
         exc = self.obs.get("exc")
         key = (type(exc).__name__ if exc is not None else "ok",)
         if s.deadlock:
@@ -163,7 +195,7 @@ class H(explore.Harness):
         if exc is not None:
             return key, crash_msg(exc)
         if call == "make":
-            bad = [r for r, v in self.obs["stored"].items() if (r != fail) != bool(v) and storage]
+            bad = [r for r, v in self.obs["stored"].items() if (r not in fails(fail)) != bool(v) and storage]
             if bad:
                 return key, f"after make, is_stored is wrong for runs {bad}"
             return key, None
@@ -203,24 +235,44 @@ def cells(tier):
     if tier == "thorough":
         C.append((("1", "2", "3"), "mp", True, True, "2", True, "get"))
         C.append((("1", "2", "3"), "mp", False, True, None, False, "make"))
-    return C
+    return C + window_cells(tier)
+
+
+def window_cells(tier):
+    """more runs than the in-flight window (2 x max_workers): the refill bookkeeping of multi_run, with every set of failing
+    runs (not all of them) ignored, and one not ignored; 1 worker x 3-4 runs, 2 workers x 5 runs"""
+    W = []
+    for runs, workers in ((("1", "2", "3"), 1), (("1", "2", "3", "4"), 1), (("1", "2", "3", "4", "5"), 2)):
+        n = len(runs)
+        for mask in range(2**n - 1):
+            fail = tuple(r for k, r in enumerate(runs) if mask >> k & 1)
+            if workers == 2 and tier == "quick" and len(fail) not in (0, 1, 4):
+                continue
+            W.append((runs, "mp", False, False, fail or None, True, "get", workers))
+        W.append((runs, "mp", False, True, (runs[1],), False, "get", workers))
+        W.append((runs, "mp", False, True, (runs[0], runs[2]), True, "make", workers))
+    return W
+
+
+N_BASE = {"quick": 14, "thorough": 16}
 
 
 def plan(tier, seed):
     C = cells(tier)
     jobs = []
     for i, c in enumerate(C):
-        if tier == "thorough":
-            bound = 2 if len(c[0]) == 2 else 1
+        if i >= N_BASE[tier]:
+            jobs.append((i, 0, "lines", tier))  # window cells: every order of completions, no preemption
+        elif tier == "thorough":
+            jobs.append((i, 2 if len(c[0]) == 2 else 1, "lines", tier))
         else:
             # quick: preemption bound 1 for the cells with the temporary merge plugin, a failing run and make;
             # bound 0 (every choice at blocking points, no preemption) for the others
-            bound = 1 if i in (4, 8, 10, 11) else 0
-        jobs.append((i, bound, False, tier))
+            jobs.append((i, 1 if i in (4, 8, 10, 11) else 0, "lines", tier))
+    # every line of every function that touches the shared registry / caches as a scheduling point, bound 1
+    jobs += [(i, 1, "funcs", tier) for i in ((0, 4) if tier == "quick" else (0, 1, 4, 5, 8, 9, 11))]
     if tier == "thorough":
-        jobs += [(i, 1, True, tier) for i in (0, 4, 8)]
-    else:
-        jobs.append((4, 0, True, tier))
+        jobs += [(i, 1, "all", tier) for i in (0, 4, 8)]
     return jobs
 
 
@@ -247,7 +299,7 @@ def run_job(job):
     res.add_set("outcomes", (i, tuple(sorted(map(repr, r.outcomes)))))
     if r.cap_hit:
         res.caps_hit.append(f"cell {i}: {r.cap_hit}")
-    res.sample(dict(cell=cfg, regime="preemption-bounded", bound=bound, all_context_lines_as_points=all_lines, executions=r.executions, scheduling_points_max=r.maxdepth, shared_lines=len(shared_lines(all_lines)[1])), cap=1)
+    res.sample(dict(cell=cfg, regime="preemption-bounded", bound=bound, points_mode=all_lines or 'lines', executions=r.executions, scheduling_points_max=r.maxdepth, shared_lines=len(shared_lines(all_lines)[1])), cap=1)
     seen = set()
     for kind, msg, choices in r.violations:
         if msg.startswith("CRASH"):
